@@ -3,7 +3,40 @@
 import json, os
 ROOT = os.path.dirname(os.path.dirname(os.path.abspath(__file__)))
 ALL = ["C%02d" % i for i in range(1, 19)]
+EXEC_NOTE = "Trusts the reference model (pv/ref/model.py, calibrated on upstream result snapshots), pinned SQLite 3.49.1 as the executing engine for sql.sqlite/sql.generic, and the unspecified-value discipline (undetermined outcomes are skipped and counted). Other dialects are not executed."
 CHECKS = {
+ "C01": dict(technique="runtime reference-model monitor: random relational-core programs x database instances compiled by the real compiler, executed on pinned SQLite, rows compared as bags with an independent interpreter",
+    text="Exploration: every judged execution's rows (values and multiplicities) equal the documented meaning of the pipeline; evidence lists split shapes, transform bigrams and SQL rewrites actually exercised.", note=EXEC_NOTE, design="§3 C01"),
+ "C02": dict(technique="runtime monitor over all operator nestings: printer (documented precedence) -> real parser tree equality, and emitted SQL value vs tree value on a NULL/negative/zero/int/float domain table",
+    text="Exploration, exhaustive over the 578 (parent, child, side) operator triples and unary adjacencies, random deeper trees: held means parse trees and SQL values matched the documented operand tree on every judged row.", note=EXEC_NOTE, design="§3 C02"),
+ "C03": dict(technique="runtime reference-model monitor of row ORDER: executed row sequence must be a concatenation of the model's tie groups; take positions; static ORDER BY presence",
+    text="Exploration with a sort-centred workload: order established by sort survives select/derive/filter/take/left-join and CTE boundaries, takes select by position.", note=EXEC_NOTE, design="§3 C03"),
+ "C04": dict(technique="runtime reference-model monitor of window segments (partition x order x rows/range bounds) for every window-capable std function; row-count preservation",
+    text="Exploration over function x frame-kind x bounds x placement cells; values depending on tie order are not judged.", note=EXEC_NOTE, design="§3 C04"),
+ "C05": dict(technique="runtime monitor of result column lists (sqlite3_column_name) against the model's frame and the compiler's own RQ frame; leaked helper-column detection",
+    text="Exploration with a projection-centred workload: count, order and names of result columns.", note=EXEC_NOTE, design="§3 C05"),
+ "C06": dict(technique="metamorphic runtime monitor: base vs rewritten program (let-prefix, user function in 4 calling styles, filter split/merge, frame identities, module path) executed on the same database and anchored to the reference model",
+    text="Exploration over (base, rewrite site, rewrite kind) pairs and compositions of two.", note=EXEC_NOTE, design="§3 C06"),
+ "C07": dict(technique="runtime monitors on emitted SQL for all 12 dialects: sqlparser's grammar for the dialect, an AST scope/binding monitor, and SQLite prepare for sqlite/generic",
+    text="Exploration: every accepted program's statement is parsed per dialect, scope-checked and (sqlite/generic) prepared against the schema.", note="Trusts sqlparser 0.60 dialect grammars as stand-ins for the engines' parsers; the scope monitor reports only what it can decide.", design="§3 C07"),
+ "C08": dict(technique="runtime value round-trip monitor: hostile string values in every PRQL spelling x context x dialect; executed value on SQLite, literal decoded with the dialect's tokenizer, statement structure vs benign twin; numeric spellings",
+    text="Exploration, exhaustive to length 2 (quick) / 3 (thorough) over a 12-symbol core alphabet plus random hostile strings.", note="The generator knows each value by construction from the documented escape table; sqlparser tokenizers stand in for the dialects.", design="§3 C08"),
+ "C09": dict(technique="runtime reference-model monitor under injective renaming of tables/aliases/columns to hostile identifiers (keywords, spaces, quotes, case, non-ASCII, the compiler's own generated patterns), database created with exactly those names",
+    text="Exploration over (identifier class, position) cells; static quoting check for all dialects on a sample.", note=EXEC_NOTE, design="§3 C09"),
+ "C10": dict(technique="runtime negative monitor: well-scoped programs with one scope-breaking edit must return Err on each of 8 repetitions",
+    text="Exploration over (edit kind, name pool, enclosing transform) cells.", note="Trusts the generator's notion of a fully known frame (after select/aggregate/group-aggregate).", design="§3 C10"),
+ "C11": dict(technique="runtime determinism monitor against a sequential model (first call of a fresh process): repeated calls with failing/panicking calls in between, fresh processes, 16 barrier-released threads incl. first-call races, permuted file insertion orders",
+    text="Exploration: byte equality of SQL, RQ JSON, formatted text and full error (reason, hints, span, code, display) across histories, processes, schedules and file orders.", note="Hash seeds and schedules are sampled, not enumerated (K repetitions per program).", design="§3 C11"),
+ "C12": dict(technique="runtime crash monitor: panic hook + catch_unwind, process exit status, deterministic allocation-count growth; corpus/random/mutant sources, size-doubling families to n=4096, mutated PL/RQ JSON",
+    text="Exploration of every public entry point for panics, aborts (stack exhaustion) and super-polynomial logical cost.", note="debug-assertions and overflow-checks on; 8 MiB stack; sizes above 4096 unexplored; wall clock only as inconclusive watchdog.", design="§3 C12"),
+ "C13": dict(technique="runtime monitor of error locations: injected lexical/syntactic/resolution/type/SQL-stage errors with ASCII and multi-byte prefixes, single- and multi-file; span bounds, char boundaries, independently computed line/column, quoted line, offending token",
+    text="Exploration over (error class, prefix class, layout) cells.", note="A span is accepted if one unit (characters or bytes) makes all clauses true.", design="§3 C13"),
+ "C14": dict(technique="runtime round-trip monitor of the formatter: parse -> format -> parse tree equality, idempotence, equal compile output",
+    text="Exploration over feature programs, corpus, random programs and every operator nesting in minimal/full parentheses.", note="Tree equality ignores span and doc_comment keys.", design="§3 C14"),
+ "C15": dict(technique="runtime differential monitor: source -> PL -> JSON -> PL -> RQ -> JSON -> RQ -> SQL through the public json::* API vs one-shot compile (value equality, byte equality of re-serialised JSON, output/error equality)",
+    text="Exploration over feature programs, corpus and random programs x dialects x options.", note="Equality is the types' own PartialEq; unstable-under-repetition cases are skipped (C11's business).", design="§3 C15"),
+ "C16": dict(technique="runtime invariant monitor (Rust, over the public ir::rq types) run on the RQ of every program that reaches RQ",
+    text="Exploration: unique column-id definitions, definition before use within a pipeline, tables declared before use, from/select framing and arity.", note="'visible' is read as defined earlier in the same pipeline; Loop bodies exempt from framing.", design="§3 C16"),
  "C17": dict(
     technique="runtime monitor over the real lexer's output: exhaustive short strings + random token-fragment strings + corpus; oracle checks span bounds, char boundaries, order, gaps, and re-lex of every token slice",
     text="Exploration: the monitor observes prql_to_tokens on every string up to a stated length over alphabets of lexically significant characters (exhaustive within that space), plus random fragment sequences and corpus prefixes. Held means no tiling/re-lex violation other than the listed known findings was observed on those executions.",
@@ -15,12 +48,13 @@ CHECKS = {
     note="Prepending a `prql target:` header is assumed to be a pure addition for programs that parse both with and without it (others are skipped and counted). Signature comment off; errors compared on (reason, hints).",
     design="§3 C18"),
 }
+CLAIMED = ["C11", "C15", "C16", "C17", "C18"]
 PENDING_REASON = "check not yet built in this revision of /verif (planned, see DESIGN.md §3); not claimed until its monitor exists"
 
 def main():
     checks = []
     for pid in ALL:
-        if pid not in CHECKS: continue
+        if pid not in CLAIMED: continue
         c = CHECKS[pid]
         checks.append({
             "property_id": pid,
@@ -44,13 +78,13 @@ def main():
             "add_only": True,
         },
         "engines": [
-            {"name": "pv-worker", "path": "harness/pv-worker", "serves_properties": sorted(CHECKS),
+            {"name": "pv-worker", "path": "harness/pv-worker", "serves_properties": sorted(CLAIMED),
              "kind_free_text": "Rust JSON-lines server linking the real prqlc from /repo's working tree + pinned SQLite (rusqlite bundled) + sqlparser; hosts panic/alloc/CPU instrumentation and the Rust-side monitors (rqcheck, c17, sqlbind)"},
-            {"name": "pv", "path": "pv", "serves_properties": sorted(CHECKS),
+            {"name": "pv", "path": "pv", "serves_properties": sorted(CLAIMED),
              "kind_free_text": "Python stdlib orchestrator: seeded workload generators, reference model, oracles, reducer, known-finding matcher, evidence writer"},
         ],
         "checks": checks,
-        "not_applicable": [{"property_id": p, "reason": PENDING_REASON} for p in ALL if p not in CHECKS],
+        "not_applicable": [{"property_id": p, "reason": PENDING_REASON} for p in ALL if p not in CLAIMED],
         "notes": "Technique family: runtime monitoring. Exit 0 = held on what was observed, 1 = VIOLATION, 2 = inconclusive (never folded into the others). known_findings.txt lists genuine defects recorded rather than repaired.",
     }
     with open(os.path.join(ROOT, "MANIFEST.json"), "w") as f:
